@@ -184,6 +184,8 @@ class SymStr:
 
     def type_of_value(self, v):
         if v[0] == "enum":
+            if v[1] in self.facts.adts:            # tuple struct built through its constructor
+                return v[1]
             return v[1].rsplit("::", 1)[0]
         if v[0] == "struct":
             if v[1] not in self.facts.adts and v[1].rsplit("::", 1)[0] in self.facts.adts:
@@ -279,6 +281,8 @@ class SymStr:
         # opaque external type (url::Url, chrono, debversion::Version ...): an atom parses to itself
         if p is not None and len(p) == 1 and p[0][0] == "atom":
             return [(OK, ("enum", OKV, (sv,)), st)]
+        if ty == "debversion::Version" and p is not None and p and all(x[0] == "lit" or x[2] in ("word", "int") for x in p) and not any(ch in WS for x in p if x[0] == "lit" for ch in x[1]):
+            return [(OK, ("enum", OKV, (mk(p),)), st)]
         return [(OK, ("enum", OKV, (unk("parsed:" + str(ty)),)), st), (OK, ("enum", ERRV, (unk("parse-err"),)), st)]
 
     # ---- iterators: ('abs','siter', items_tuple, idx)
@@ -408,7 +412,7 @@ class SymStr:
                     if r is not None:
                         return [(OK, ("bool", r), st)]
                 return [(OK, unk("ends_with"), st)]
-            if c == "core::str::<impl str>::is_empty":
+            if c in ("core::str::<impl str>::is_empty", "alloc::string::String::is_empty"):
                 return [(OK, ("bool", len(p0) == 0), st)]
             if c == "core::str::<impl str>::contains":
                 pat = pieces_of(I.deref_val(st, args[1]))
